@@ -10,6 +10,7 @@ import (
 	"encoding/json"
 	"fmt"
 	"os"
+	"reflect"
 	"runtime"
 	"strconv"
 	"strings"
@@ -181,27 +182,74 @@ func AssertDisjointFootprints(id int) {}
 // text for concrete values: ints in decimal, bools, strings quoted, nil, structs as
 // Type{f1,f2}, with package paths stripped from type names.
 func Render(v any) string {
-	switch x := v.(type) {
-	case nil:
+	if v == nil {
 		return "nil"
-	case int:
-		return strconv.Itoa(x)
-	case int32:
-		return strconv.Itoa(int(x))
-	case int64:
-		return strconv.FormatInt(x, 10)
-	case uint8:
-		return strconv.Itoa(int(x))
-	case bool:
-		if x {
+	}
+	return renderValue(reflect.ValueOf(v))
+}
+
+func renderValue(rv reflect.Value) string {
+	switch rv.Kind() {
+	case reflect.Int, reflect.Int8, reflect.Int16, reflect.Int32, reflect.Int64:
+		return strconv.FormatInt(rv.Int(), 10)
+	case reflect.Uint, reflect.Uint8, reflect.Uint16, reflect.Uint32, reflect.Uint64, reflect.Uintptr:
+		return strconv.FormatUint(rv.Uint(), 10)
+	case reflect.Bool:
+		if rv.Bool() {
 			return "true"
 		}
 		return "false"
-	case string:
-		return strconv.Quote(x)
+	case reflect.String:
+		return strconv.Quote(rv.String())
+	case reflect.Struct:
+		var b strings.Builder
+		b.WriteString(typeName(rv.Type()))
+		b.WriteString("{")
+		for i := 0; i < rv.NumField(); i++ {
+			if i > 0 {
+				b.WriteString(",")
+			}
+			b.WriteString(renderValue(rv.Field(i)))
+		}
+		b.WriteString("}")
+		return b.String()
+	case reflect.Array, reflect.Slice:
+		var b strings.Builder
+		if rv.Kind() == reflect.Array {
+			b.WriteString("arr{")
+		} else {
+			b.WriteString("slice{")
+		}
+		for i := 0; i < rv.Len(); i++ {
+			if i > 0 {
+				b.WriteString(",")
+			}
+			b.WriteString(renderValue(rv.Index(i)))
+		}
+		b.WriteString("}")
+		return b.String()
+	case reflect.Interface:
+		if rv.IsNil() {
+			return "nil"
+		}
+		return renderValue(rv.Elem())
+	case reflect.Ptr:
+		if rv.IsNil() {
+			return "nil"
+		}
+		return "<ptr>"
 	}
-	s := fmt.Sprintf("%#v", v)
-	return stripPkg(s)
+	return "<" + rv.Kind().String() + ">"
+}
+
+// typeName: the type's name without package qualifiers ("Pair[int,string]", "struct{...}" for
+// unnamed structs is rendered as "struct").
+func typeName(t reflect.Type) string {
+	n := t.Name()
+	if n == "" {
+		return t.String()
+	}
+	return stripPkg(n)
 }
 
 // RenderPanic: explicit panic values are rendered like Render; run-time errors by class.
